@@ -126,6 +126,8 @@ theorem failure_reports_failure_call (op : Op) (s : St) (e : Errno) (h : s.inj =
   exact ⟨_, rfl, rfl⟩
 
 -- concrete scenarios (kernel evaluated) ----------------------------------------------------------------------------
+-- The witnesses run the command BODIES (`bodyApply`, `bodyRename`: everything between taking and releasing the
+-- workspace lock), so the call indices do not depend on how the lock is taken.
 
 def meta0 : Tree :=
   [ ([dotR], .dir 0o755), (pHist, .file (encodeHist [entryOld]) 0o644), (pPlanJson, .file blob 0o644) ]
@@ -155,74 +157,74 @@ set_option maxRecDepth 100000 in
 /-- non-vacuity and the fault-free case: the whole command succeeds, the tree is the plan's, exactly one entry was
     appended, the plan is stored -/
 theorem success_complete_example :
-    outcome (run (cmdApply plA) tA .none) = .ok ∧
-    userTree (run (cmdApply plA) tA .none).st.t = userTree (applyPlan tA plA).tree ∧
-    loadHist (run (cmdApply plA) tA .none).st.t = [entryOld, entryApply] ∧
-    fileAt (run (cmdApply plA) tA .none) (pStored idNew) = some (.file blob 0o644) := by decide +kernel
+    outcome (run (bodyApply plA) tA .none) = .ok ∧
+    userTree (run (bodyApply plA) tA .none).st.t = userTree (applyPlan tA plA).tree ∧
+    loadHist (run (bodyApply plA) tA .none).st.t = [entryOld, entryApply] ∧
+    fileAt (run (bodyApply plA) tA .none) (pStored idNew) = some (.file blob 0o644) := by decide +kernel
 
 set_option maxRecDepth 100000 in
 /-- finding content_not_rolled_back: the second file is stale; the command fails, `a.txt` stays rewritten, no entry -/
 theorem C04_witness_content_not_rolled_back :
-    outcome (run (cmdApply plA) tAstale .none) = .fail ∧
-    fileAt (run (cmdApply plA) tAstale .none) [b!"a.txt"] = some (.file b!"bar" 0o644) ∧
-    loadHist (run (cmdApply plA) tAstale .none).st.t = [entryOld] := by decide +kernel
+    outcome (run (bodyApply plA) tAstale .none) = .fail ∧
+    fileAt (run (bodyApply plA) tAstale .none) [b!"a.txt"] = some (.file b!"bar" 0o644) ∧
+    loadHist (run (bodyApply plA) tAstale .none).st.t = [entryOld] := by decide +kernel
 
 set_option maxRecDepth 100000 in
 /-- finding tmp_left_behind: `write a.PID.renamify.tmp` (call 6) fails; the empty temp file stays in the user's tree -/
 theorem C04_witness_tmp_left : ExecFlags.tempRemovedOnFailure = false →
-    outcome (run (cmdApply plA) tA (.fail 6 .EIO)) = .fail ∧
-    fileAt (run (cmdApply plA) tA (.fail 6 .EIO)) [b!"a.PID.renamify.tmp"] = some (.file [] 0o644) := by decide +kernel
+    outcome (run (bodyApply plA) tA (.fail 6 .EIO)) = .fail ∧
+    fileAt (run (bodyApply plA) tA (.fail 6 .EIO)) [b!"a.PID.renamify.tmp"] = some (.file [] 0o644) := by decide +kernel
 
 set_option maxRecDepth 100000 in
 /-- finding late_failure_no_rollback: `openw history.json` (call 29) fails; failure is reported with the whole plan
     applied and nothing recorded -/
 theorem C04_witness_history_fail :
-    outcome (run (cmdApply plA) tA (.fail 29 .EIO)) = .fail ∧
-    userTree (run (cmdApply plA) tA (.fail 29 .EIO)).st.t = userTree (applyPlan tA plA).tree ∧
-    loadHist (run (cmdApply plA) tA (.fail 29 .EIO)).st.t = [entryOld] := by decide +kernel
+    outcome (run (bodyApply plA) tA (.fail 29 .EIO)) = .fail ∧
+    userTree (run (bodyApply plA) tA (.fail 29 .EIO)).st.t = userTree (applyPlan tA plA).tree ∧
+    loadHist (run (bodyApply plA) tA (.fail 29 .EIO)).st.t = [entryOld] := by decide +kernel
 
 set_option maxRecDepth 100000 in
 /-- finding history_write_failure_swallowed: `write history.json` (call 30) fails; SUCCESS is reported, history.json is
     empty: the earlier entry is gone and the new one was never recorded -/
 theorem C04_witness_history_write_swallowed : ExecFlags.atomicHistorySave = false →
-    outcome (run (cmdApply plA) tA (.fail 30 .EIO)) = .ok ∧
-    fileAt (run (cmdApply plA) tA (.fail 30 .EIO)) pHist = some (.file [] 0o644) ∧
-    loadHist (run (cmdApply plA) tA (.fail 30 .EIO)).st.t = [] := by decide +kernel
+    outcome (run (bodyApply plA) tA (.fail 30 .EIO)) = .ok ∧
+    fileAt (run (bodyApply plA) tA (.fail 30 .EIO)) pHist = some (.file [] 0o644) ∧
+    loadHist (run (bodyApply plA) tA (.fail 30 .EIO)).st.t = [] := by decide +kernel
 
 set_option maxRecDepth 100000 in
 /-- finding failure_after_history_recorded: `mkdir .renamify/plans` (call 31) fails after the entry was written -/
 theorem C04_witness_failure_after_history : ExecFlags.atomicHistorySave = false →
-    outcome (run (cmdApply plA) tA (.fail 31 .EIO)) = .fail ∧
-    loadHist (run (cmdApply plA) tA (.fail 31 .EIO)).st.t = [entryOld, entryApply] := by decide +kernel
+    outcome (run (bodyApply plA) tA (.fail 31 .EIO)) = .fail ∧
+    loadHist (run (bodyApply plA) tA (.fail 31 .EIO)).st.t = [entryOld, entryApply] := by decide +kernel
 
 set_option maxRecDepth 100000 in
 /-- finding rollback_nested_fails: the third rename (call 17) fails; rollback cannot move `bar/bar` back to `foo/foo`
     because `foo` does not exist yet, and the tree is left as `foo/bar/foo.txt` -/
 theorem C04_witness_rollback_nested :
-    outcome (run (cmdApply plN) tN (.fail 17 .EIO)) = .fail ∧
-    fileAt (run (cmdApply plN) tN (.fail 17 .EIO)) [b!"foo", b!"bar", b!"foo.txt"] = some (.file b!"x" 0o644) ∧
-    fileAt (run (cmdApply plN) tN (.fail 17 .EIO)) [b!"foo", b!"foo", b!"foo.txt"] = none := by decide +kernel
+    outcome (run (bodyApply plN) tN (.fail 17 .EIO)) = .fail ∧
+    fileAt (run (bodyApply plN) tN (.fail 17 .EIO)) [b!"foo", b!"bar", b!"foo.txt"] = some (.file b!"x" 0o644) ∧
+    fileAt (run (bodyApply plN) tN (.fail 17 .EIO)) [b!"foo", b!"foo", b!"foo.txt"] = none := by decide +kernel
 
 set_option maxRecDepth 100000 in
 /-- rollback_restores_paths (partial, non-nested instance): the SECOND rename (call 10) fails; the one rename done so
     far is reverted and every path is back -/
 theorem rollback_restores_paths_example :
-    outcome (run (cmdApply plN) tN (.fail 10 .EIO)) = .fail ∧
-    userTree (run (cmdApply plN) tN (.fail 10 .EIO)).st.t = userTree tN := by decide +kernel
+    outcome (run (bodyApply plN) tN (.fail 10 .EIO)) = .fail ∧
+    userTree (run (bodyApply plN) tN (.fail 10 .EIO)).st.t = userTree tN := by decide +kernel
 
 set_option maxRecDepth 100000 in
 /-- finding log_failure_skips_rollback: the log line "Adjusted rename source" (call 7) fails; `foo` stays renamed -/
 theorem C04_witness_log_skips_rollback :
-    outcome (run (cmdApply plN) tN (.fail 7 .EIO)) = .fail ∧
-    fileAt (run (cmdApply plN) tN (.fail 7 .EIO)) [b!"bar", b!"foo", b!"foo.txt"] = some (.file b!"x" 0o644) := by
+    outcome (run (bodyApply plN) tN (.fail 7 .EIO)) = .fail ∧
+    fileAt (run (bodyApply plN) tN (.fail 7 .EIO)) [b!"bar", b!"foo", b!"foo.txt"] = some (.file b!"x" 0o644) := by
   decide +kernel
 
 set_option maxRecDepth 100000 in
-/-- finding probe_dir_left_behind: removing the case-probe file (call 6 of `rename`) fails; success is reported and
+/-- finding probe_dir_left_behind: removing the case-probe file (call 3 of the body of `rename`) fails; success is reported and
     `.tmpRAND/test_case_a` stays in the user's tree -/
 theorem C04_witness_probe_left :
-    outcome (run (cmdRename plA) (tA.take 2) (.fail 6 .EIO)) = .ok ∧
-    fileAt (run (cmdRename plA) (tA.take 2) (.fail 6 .EIO)) pProbeFile = some (.file b!"test" 0o644) := by decide +kernel
+    outcome (run (bodyRename plA) (tA.take 2) (.fail 3 .EIO)) = .ok ∧
+    fileAt (run (bodyRename plA) (tA.take 2) (.fail 3 .EIO)) pProbeFile = some (.file b!"test" 0o644) := by decide +kernel
 
 /-- the stale scenario of the former finding `stale_panic`: `b.txt` was cut down to one byte behind the plan's back -/
 def tAcut : Tree := [ ([b!"a.txt"], .file b!"foo" 0o644), ([b!"b.txt"], .file b!"f" 0o600) ] ++ meta0
@@ -242,9 +244,9 @@ set_option maxRecDepth 100000 in
 /-- the whole command on that scenario: a reported failure, no panic (what remains is `content_not_rolled_back`:
     `a.txt`, processed before the stale `b.txt`, stays rewritten) -/
 theorem stale_offsets_fail_cleanly_example :
-    outcome (run (cmdApply plA) tAcut .none) = .fail ∧
-    fileAt (run (cmdApply plA) tAcut .none) [b!"b.txt"] = some (.file b!"f" 0o600) ∧
-    fileAt (run (cmdApply plA) tAcut .none) [b!"a.txt"] = some (.file b!"bar" 0o644) := by decide +kernel
+    outcome (run (bodyApply plA) tAcut .none) = .fail ∧
+    fileAt (run (bodyApply plA) tAcut .none) [b!"b.txt"] = some (.file b!"f" 0o600) ∧
+    fileAt (run (bodyApply plA) tAcut .none) [b!"a.txt"] = some (.file b!"bar" 0o644) := by decide +kernel
 
 /-- the edit loop as it is never panics, whatever the plan says (all contents, all edit lists) -/
 theorem edits_never_panic (c : Bytes) (es : List Edits.Edit) : Edits.applyEdits c es ≠ .error .panic :=
